@@ -1048,6 +1048,29 @@ inductive Stored (P : Type) where
 def Stored.fmt {P : Type} : Stored P → Fmt
   | .asdf _ => .asdf | .fits _ => .fits | .pickle _ => .pickle
 
+/-! ### the `overwrite` argument: a write onto a path that may already hold a file -/
+
+/-- why a write onto a path did not happen: the writer itself refused (`Err`, before the path is touched:
+format resolution, `to_dict()`, building the HDUs) or the path holds a file (`OSError` of
+`astropy`'s `HDUList.writeto(..., overwrite=False)`) -/
+inductive Refusal where
+  | writer (e : Err)
+  | fileExists
+deriving DecidableEq, Repr
+
+/-- `write_*(x, name, fmt, overwrite)` on a path that holds `prev`; `w` is what the writer produces for
+`(x, name, fmt)` on a fresh path (`writeGridFile …`, `writeFieldFile …`, `writeBasisFile …`).  Returns what
+the path holds afterwards and whether the call raised.  Only the FITS branch hands `overwrite` on (to
+`HDUList.writeto`); `asdf.AsdfFile.write_to` and `open(name, 'wb')` replace whatever is there — the
+argument has no effect for asdf and pickle files. -/
+def writeOver {P : Type} (prev : Option (Stored P)) (overwrite : Bool) (w : Except Err (Stored P)) :
+    Option (Stored P) × Except Refusal Unit :=
+  match w with
+  | .error e => (prev, .error (.writer e))
+  | .ok st =>
+    if st.fmt == .fits && prev.isSome && !overwrite then (prev, .error .fileExists)
+    else (some st, .ok ())
+
 /-- `write_grid(grid, filename, fmt)`: the format is resolved, `grid.to_dict()` is computed (for
 every format), then the format's writer runs.  A pickle holds the object (default pickling). -/
 def writeGridFile (lib : AsdfLib) (name : List Char) (fmt : Option String) (g : Grid) :
